@@ -48,12 +48,13 @@ Record grec := mkG {
   g_arith : arithk -> span -> tyid -> tyid -> M unit;                  (* fn add / sub / mul / cmp *)
   g_div : span -> tyid -> tyid -> M unit;                              (* fn div *)
   g_divres : span -> tyid -> tyid -> M unit;                           (* fn div_res *)
-  g_copy : tyid -> copymap -> M (tyid * copymap)                       (* fn inner_copy *)
+  g_copy : tyid -> copymap -> M (tyid * copymap);                      (* fn inner_copy *)
+  g_neg : span -> tyid -> M unit                                       (* fn neg (since 612fb00) *)
 }.
 
 Definition g_bottom : grec :=
   mkG (fun _ _ _ _ => out_of_fuel) (fun _ _ => out_of_fuel) (fun _ _ _ _ => out_of_fuel)
-      (fun _ _ _ => out_of_fuel) (fun _ _ _ => out_of_fuel) (fun _ _ => out_of_fuel).
+      (fun _ _ _ => out_of_fuel) (fun _ _ _ => out_of_fuel) (fun _ _ => out_of_fuel) (fun _ _ => out_of_fuel).
 
 (* fn unify: a fresh `seen` set *)
 Definition unify (R : grec) (sp : span) (a b : tyid) : M tyid :=
@@ -145,6 +146,15 @@ Definition divres_body (R : grec) (sp : span) (a b : tyid) : M unit :=
        | _ => fail KExotic sp
        end.
 
+(* fn neg: int, float, and (nested) tuples of them *)
+Definition neg_body (R : grec) (sp : span) (a : tyid) : M unit :=
+  t <- find_type a ;;
+  match t with
+  | HUnknown | HInt | HFloat => ret tt
+  | HTuple tys => iterM (g_neg R sp) tys
+  | _ => fail KUniOp sp
+  end.
+
 (* fn constant_index (1980) *)
 Definition constant_index (R : grec) (sp : span) (a : tyid) (index : Z) (r : tyid) : M unit :=
   ta <- find_type a ;;
@@ -171,9 +181,7 @@ Definition check_one (R : grec) (sp : span) (a : tyid) (c : constr) : M unit :=
   | CCmp b => g_arith R ACmp sp a b
   (* `self.equ(..).and(self.cmp(..))`: both run, the error of equ wins *)
   | CCmpEqu b => unify R sp a b ;;; g_arith R ACmp sp a b
-  | CNeg =>
-    t <- find_type a ;;
-    match t with HUnknown | HInt | HFloat => ret tt | _ => fail KUniOp sp end
+  | CNeg => g_neg R sp a
   | CConstIdx i r => constant_index R sp a i r
   | CField name expected =>
     t <- find_type a ;;
@@ -347,7 +355,7 @@ Definition copy_body (R : grec) (old : tyid) (m : copymap) : M (tyid * copymap) 
   end.
 
 Definition gstep (R : grec) : grec :=
-  mkG (unify_body R) (check_body R) (arith_body R) (div_body R) (divres_body R) (copy_body R).
+  mkG (unify_body R) (check_body R) (arith_body R) (div_body R) (divres_body R) (copy_body R) (neg_body R).
 
 Fixpoint gfix (fuel : nat) : grec :=
   match fuel with
@@ -851,7 +859,7 @@ Section WithVars.
          add_constraint t_ty (CDivTop e_ty) ;;;
          g_check G sp e_ty ;;;
          g_check G sp t_ty
-       | _ => unify G sp e_ty t_ty ;;; ret tt
+       | _ => unify G sp e_ty t_ty ;;; g_check G sp t_ty       (* the check: since d6dfc5c (`x += x`) *)
        end) ;;;
       unify_option G sp e_ret t_ret
     | SDefinition _ var kind t value sp => definition R var kind t value sp ctx
